@@ -315,6 +315,12 @@ func (ex *Exchange[H]) GetRangeByHeight(
 		),
 	)
 	defer span.End()
+	// the requested range is (from.Height():to), so it must contain at least one height
+	if to <= from.Height()+1 {
+		err := fmt.Errorf("%w: (%d:%d)", header.ErrRangeMixUp, from.Height(), to)
+		span.SetStatus(codes.Error, err.Error())
+		return nil, err
+	}
 	session := newSession[H](
 		ex.ctx,
 		ex.host,
